@@ -53,6 +53,30 @@ func Run(c *engine.Ctx) {
 			}
 		}
 	}
+	// ill-formed operands in which two or three node objects carry one identifier, before, between and after the others;
+	// the results are judged on the identifier sets (a repeated identifier may come back repeated)
+	{
+		c.Group("repeated-identifiers")
+		var F []gen.ListSpec
+		for _, seq := range [][]string{{"a", "a", "b"}, {"a", "b", "a"}, {"b", "a", "a"}, {"a", "b", "b"}, {"a", "a", "a", "b"}, {"a", "a"}, {"a", "b"}} {
+			for _, roots := range [][]string{nil, {"a"}, {"b"}, {"a", "b"}, {"b", "a"}} {
+				for _, el := range [][]gen.EdgeSpec{nil, {{From: "a", Type: sbom.Edge_contains, To: []string{"b"}}}, {{From: "b", Type: sbom.Edge_dependsOn, To: []string{"a"}}}} {
+					F = append(F, gen.ListSpec{Nodes: seq, Roots: roots, Edges: el})
+				}
+			}
+		}
+		c.Bound("repeated-identifiers", fmt.Sprintf("all %d x %d ordered pairs of lists in which an identifier is carried by two or three node objects (7 node sequences x 5 root lists x 3 edge lists)", len(F), len(F)))
+		for i := range F {
+			for j := range F {
+				A, B := F[i], F[j]
+				c.Case(func() any { return pairDesc{A: A, B: B} }, func(t *engine.T) *engine.Violation {
+					repeatedIDs = true
+					defer func() { repeatedIDs = false }()
+					return pairCase(t, A, B)
+				})
+			}
+		}
+	}
 	attrCube(c)
 	nearVersions(c)
 	c.Group("attr-wide")
@@ -120,6 +144,9 @@ func sameRuleAsUnion(c *engine.Ctx) {
 	}
 }
 
+// repeatedIDs is set by the cases of the repeated-identifiers group (one case at a time per worker process).
+var repeatedIDs bool
+
 func pairCase(t *engine.T, A, B gen.ListSpec) *engine.Violation {
 	a, b := gen.SpareList(A.Build()), gen.SpareList(B.Build())
 	ma, mb := gen.ModelOf(a), gen.ModelOf(b)
@@ -140,7 +167,7 @@ func pairCase(t *engine.T, A, B gen.ListSpec) *engine.Violation {
 		if ma.Nodes[id] == 0 || mb.Nodes[id] == 0 {
 			return engine.Violate("intersect-nodes", "", "node %s in result but not in both operands", id)
 		}
-		if k != 1 {
+		if k != 1 && !repeatedIDs {
 			return engine.Violate("intersect-nodes", "dup", "node %s appears %d times", id, k)
 		}
 	}
